@@ -149,8 +149,11 @@ def cooldown_task_rules(chk: Check, repo: Repo) -> None:
     # the value the pending one is compared with at the end of a cooldown ("the value last on the bus")
     refs = sorted({ast.unparse(o) for n in cfg.nodes if n.kind == "test" and isinstance(n.ast, ast.Compare) and len(n.ast.ops) == 1 and isinstance(n.ast.ops[0], (ast.Eq, ast.NotEq))
                    for me, o in ((n.ast.left, n.ast.comparators[0]), (n.ast.comparators[0], n.ast.left)) if ast.unparse(me) == SLOT})
-    if len(refs) != 1:
-        raise AnalysisError(f"_cooldown_send: the comparison of the pending value not found ({refs})")
+    if len(refs) > 1:
+        raise AnalysisError(f"_cooldown_send: several comparisons of the pending value ({refs})")
+    if not refs:
+        chk.ob("cooldown-end-sends-the-pending-value-iff-it-differs", cs.site(), False, "_cooldown_send does not compare the pending value with the value sent last: it sends at every expiry (the loop never ends, the same value goes out once per cooldown)", key="cooldown-send")
+        return
     ref = refs[0]
     eq_atoms = (f"{ref} == {SLOT}", f"{SLOT} == {ref}")
     # ... has to be what the sensor itself handed to the outgoing queue last: `sensor_value.last_payload` is written when
